@@ -91,12 +91,13 @@ func (c *Case) Clone() *Case {
 // SchedOptions builds scheduler options for this case.
 func (c *Case) SchedOptions(keepLog bool) sim.Options {
 	o := sim.Options{
-		Seed:       c.SchedSeed,
-		PreemptNum: int(c.Knob("preempt_num", 1)),
-		PreemptDen: int(c.Knob("preempt_den", 1)),
-		MaxFree:    int(c.Knob("max_free", 0)),
-		Tick:       time.Duration(c.Knob("tick_ns", 0)),
-		KeepLog:    keepLog,
+		Seed:        c.SchedSeed,
+		PreemptNum:  int(c.Knob("preempt_num", 1)),
+		PreemptDen:  int(c.Knob("preempt_den", 1)),
+		MaxFree:     int(c.Knob("max_free", 0)),
+		Tick:        time.Duration(c.Knob("tick_ns", 0)),
+		KeepLog:     keepLog,
+		UnlockYield: c.Knob("unlock_yield", 0) != 0,
 	}
 	if c.Sched != nil {
 		o.Replay = c.Sched
@@ -241,22 +242,22 @@ func Prepare() {
 
 // Summary is what a batch process reports.
 type Summary struct {
-	Engine       string           `json:"engine"`
-	From         int              `json:"from"`
-	Count        int              `json:"count"`
-	Runs         int              `json:"runs"`
-	Inconclusive map[string]int   `json:"inconclusive,omitempty"`
-	Hashes       []string         `json:"hashes"` // hex; of nontrivial runs
-	Nontrivial   int              `json:"nontrivial"`
-	Probes       map[string]int   `json:"probes"`
-	Faults       map[string]int   `json:"faults"`
-	Steps        int64            `json:"steps"`
-	SimNS        int64            `json:"sim_ns"`
-	WallNS       int64            `json:"wall_ns"`
-	Violations   []*Case          `json:"violations,omitempty"`
-	Samples      []*Case          `json:"samples,omitempty"`
-	HarnessError string           `json:"harness_error,omitempty"`
-	Next         int              `json:"next,omitempty"` // >0: batch stopped early (tainted process); continue from this index
+	Engine       string            `json:"engine"`
+	From         int               `json:"from"`
+	Count        int               `json:"count"`
+	Runs         int               `json:"runs"`
+	Inconclusive map[string]int    `json:"inconclusive,omitempty"`
+	Hashes       []string          `json:"hashes"` // hex; of nontrivial runs
+	Nontrivial   int               `json:"nontrivial"`
+	Probes       map[string]int    `json:"probes"`
+	Faults       map[string]int    `json:"faults"`
+	Steps        int64             `json:"steps"`
+	SimNS        int64             `json:"sim_ns"`
+	WallNS       int64             `json:"wall_ns"`
+	Violations   []*Case           `json:"violations,omitempty"`
+	Samples      []*Case           `json:"samples,omitempty"`
+	HarnessError string            `json:"harness_error,omitempty"`
+	Next         int               `json:"next,omitempty"`      // >0: batch stopped early (tainted process); continue from this index
 	SeedHash     map[string]string `json:"seed_hash,omitempty"` // determinism self-test
 }
 
